@@ -327,6 +327,46 @@ fn sweep(sc: &str, tables: &str, tstep: usize, tt_step: usize) -> Value {
            "to_time_checked_k": ttchk / 1000, "to_time_ok_k": ttok / 1000, "panics": panics.min(1_000_000_000), "first": first})
 }
 
+/// the deprecated `*_from_path` calls: which entry name ends up in the archive for a given path
+/// (read back by the independent lexer); judged by Trace_Path (PathSan!FromPath)
+#[allow(deprecated)]
+pub fn main_fpexec(args: &[String]) -> i32 {
+    let cases = std::fs::read_to_string(&args[0]).expect("cases");
+    let mut f = std::io::BufWriter::new(std::fs::File::create(&args[1]).expect("trace"));
+    std::panic::set_hook(Box::new(|_| {}));
+    for line in cases.lines().filter(|l| !l.trim().is_empty()) {
+        let c: Value = serde_json::from_str(line).expect("case json");
+        let sc = c["sc"].as_str().unwrap_or("?");
+        writeln!(f, "{}", json!({"ev": "Reset", "sc": sc})).unwrap();
+        for it in c["paths"].as_array().cloned().unwrap_or_default() {
+            let raw = unhex(it["hex"].as_str().unwrap_or(""));
+            let dir = it["dir"].as_bool().unwrap_or(false);
+            let r = catch_unwind(AssertUnwindSafe(|| -> Result<Vec<u8>, String> {
+                use std::os::unix::ffi::OsStrExt;
+                let p = std::path::Path::new(std::ffi::OsStr::from_bytes(&raw));
+                let mut w = ZipWriter::new(Cursor::new(Vec::new()));
+                let o = FileOptions::default().compression_method(zip::CompressionMethod::Stored);
+                if dir {
+                    w.add_directory_from_path(p, o).map_err(|e| e.to_string())?;
+                } else {
+                    w.start_file_from_path(p, o).map_err(|e| e.to_string())?;
+                }
+                let b = w.finish().map_err(|e| e.to_string())?.into_inner();
+                let l = lexer::lex(&lexer::Mem(&b), &lexer::LexOpts::default());
+                let h = l["cd"][0]["rawhex"].as_str().ok_or("no entry")?.to_string();
+                Ok(unhex(&h))
+            }));
+            let e = match r {
+                Ok(Ok(got)) => json!({"ev": "WFromPath", "sc": sc, "raw": raw, "dir": dir, "r": "ok", "got": got}),
+                Ok(Err(m)) => json!({"ev": "WFromPath", "sc": sc, "raw": raw, "dir": dir, "r": "err", "got": [], "msg": m}),
+                Err(p) => json!({"ev": "WFromPath", "sc": sc, "raw": raw, "dir": dir, "r": "panic", "got": [], "msg": panic_msg(&p)}),
+            };
+            writeln!(f, "{}", e).unwrap();
+        }
+    }
+    0
+}
+
 pub fn main_texec(args: &[String]) -> i32 {
     let cases = std::fs::read_to_string(&args[0]).expect("cases");
     let mut out: Vec<Value> = vec![];
